@@ -25,6 +25,9 @@ func init() {
 func runC01(c *Ctx) {
 	discharged := scopeAgreement(c, "R2")
 	c01R1(c, discharged)
+	valueAfterError(c, "R3")
+	nilRoot(c, "R4")
+	cliExitDiscipline(c, "R8")
 }
 
 // exportedLangEntryPoints: exported package-level functions and exported methods of exported
